@@ -207,6 +207,8 @@ def c13():
     run_conc_mc(chk, "MCConcurrent_read.cfg")
     run_conc_mc(chk, "MCConcurrent_readfault.cfg")
     run_conc_mc(chk, "MCConcurrent_read_pinned.cfg", expect_violation=True)
+    run_conc_mc(chk, "MCConcurrent_readlocal.cfg")
+    run_conc_mc(chk, "MCConcurrent_read_pending.cfg", expect_violation=True)
     scheds = export_schedules(chk, "MCConcurrent_readx.cfg")
     rnd = random.Random(chk.seed)
     # (a) lagging remote instance: warmed at epoch t, storage moves on by 1..4 epochs; with and without poller
@@ -274,6 +276,15 @@ def c13():
             bs.append({"id": len(bs) + 1, "cfg": ["wa", "exp"][len(bs) % 2], "conc": len(bs) % 3, "cache": "default", "labels": ["a", "b"], "values": ["x", "y"],
                        "kinds": ["epoch_hash", "lookup"], "prefix": prefix + [[["b", "y"]]], "procs": procs, "post": True, "flush_before": True,
                        "schedule": [3] * i + [1] * 200 + [3] * 200})
+    # requests STARTING at any point of a publish, including akd's guarded scheduling point at which the new epoch
+    # record is pending in the shared transaction log (between two statements that perform no storage operation)
+    for ri, rd0 in enumerate(readers[:5]):
+        for i in (range(0, 18, 2) if chk.tier == "quick" else range(0, 30)):
+            for j in ((1, 3) if chk.tier == "quick" else range(1, 6)):
+                procs = [{"pid": 1, "kind": "publish", "batch": [["a", "x"]]}, dict(rd0, pid=3)]
+                bs.append({"id": len(bs) + 1, "cfg": ["wa", "exp"][len(bs) % 2], "conc": len(bs) % 3, "cache": ["none", "default"][(i + ri) % 2], "labels": ["a", "b"],
+                           "values": ["x", "y"], "kinds": ["epoch_hash", "lookup"], "prefix": prefix, "procs": procs, "sched_points": True,
+                           "schedule": [1] * i + [3] * j + [1] + [3] * 200 + [1] * 200})
     ctraces = run_conc_harness(chk, bs)
     results = validate_traces("TraceDirectory", "TraceDirectory.cfg", ltraces + ctraces, chk.wd)
     chk.handle_validation(results)
